@@ -32,6 +32,7 @@ type Solver struct {
 	kind     string
 	lastErr  string
 	timeoutS int
+	timeoutMs int // per-query timeout the process was started with
 	record   bool
 	lines    [][]string
 	waitingSince int64
@@ -70,7 +71,12 @@ func NewSolver(kind string, timeoutMs int) *Solver {
 		f, _ := os.Create(fmt.Sprintf("%s.%d", p, cmd.Process.Pid))
 		s.log = f
 	}
-	go s.watchdog(90 * time.Second)
+	s.timeoutMs = timeoutMs
+	wd := 90 * time.Second
+	if d := time.Duration(timeoutMs) * time.Millisecond * 3; d > wd {
+		wd = d // a lemma that asks for a longer per-query timeout also gets a longer watchdog
+	}
+	go s.watchdog(wd)
 	if kind == "cvc5" {
 		s.send("(set-logic QF_BV)")
 	} else {
